@@ -315,6 +315,9 @@ type LookupCacheCase struct {
 	// program calls Refresh - a poll's cache write and the lookups' cache writes must not overtake
 	// one another: the last document holds the polled version AND every looked-up secret
 	Refresh bool `json:"refresh,omitempty"`
+	// RefreshFirst (with Refresh): the Refresh is started BEFORE the lookups, so that (with SlowCall 1)
+	// it is the poll's cache write that the slow device holds while the lookups come in
+	RefreshFirst bool `json:"refresh_first,omitempty"`
 }
 
 // lcVal is what the service serves for an undeclared name: "w" is a secret whose value is empty (the
@@ -346,6 +349,19 @@ func runC16LookupCache(t *testing.T, c LookupCacheCase) (*h.Violation, h.Info) {
 			time.Sleep(time.Duration(c.HoldMs) * time.Millisecond)
 		}
 	}
+	var refreshDone chan error
+	if c.Refresh && c.RefreshFirst {
+		svc.Set("d", 2, []byte("dv-2"))
+		refreshDone = make(chan error, 1)
+		go func() { refreshDone <- st.Refresh(context.Background()) }()
+		if c.SlowCall == 1 {
+			select { // let the poll reach the slow device before the lookups start
+			case <-held:
+				info.Class("lookups-start-while-the-poll's-cache-write-is-held")
+			case <-time.After(200 * time.Millisecond):
+			}
+		}
+	}
 	var wg sync.WaitGroup
 	errs := make([]error, len(c.Names))
 	for i, n := range c.Names {
@@ -358,7 +374,7 @@ func runC16LookupCache(t *testing.T, c LookupCacheCase) (*h.Violation, h.Info) {
 			}
 			errs[i] = err
 		}()
-		if i == 0 && c.SlowCall == 1 {
+		if i == 0 && c.SlowCall == 1 && refreshDone == nil {
 			select { // let the first lookup reach the slow device before the others start
 			case <-held:
 				info.Class("others-start-while-a-cache-write-is-held")
@@ -369,7 +385,14 @@ func runC16LookupCache(t *testing.T, c LookupCacheCase) (*h.Violation, h.Info) {
 		}
 	}
 	dWant := "dv"
-	if c.Refresh {
+	if refreshDone != nil {
+		if err := <-refreshDone; err == nil {
+			dWant = "dv-2"
+			info.Class("a-refresh-installs-while-lookups-write-the-cache")
+		} else {
+			dWant = ""
+		}
+	} else if c.Refresh {
 		svc.Set("d", 2, []byte("dv-2"))
 		if err := st.Refresh(context.Background()); err == nil {
 			dWant = "dv-2"
@@ -441,11 +464,12 @@ var c16lookupCache = &h.Campaign[LookupCacheCase]{
 	Quick: 400, Thorough: 20000,
 	Gen: func(rt *rapid.T) LookupCacheCase {
 		return LookupCacheCase{
-			Names:    rapid.SliceOfN(rapid.SampledFrom([]string{"x", "y", "z", "w"}), 2, 6).Draw(rt, "names"),
-			SlowCall: rapid.SampledFrom([]int{1, 1, 1, 2, 3}).Draw(rt, "slow"),
-			HoldMs:   rapid.SampledFrom([]int{1, 3, 8}).Draw(rt, "hold"),
-			GapUs:    rapid.SampledFrom([]int{0, 50, 500}).Draw(rt, "gap"),
-			Refresh:  rapid.Bool().Draw(rt, "refresh"),
+			Names:        rapid.SliceOfN(rapid.SampledFrom([]string{"x", "y", "z", "w"}), 2, 6).Draw(rt, "names"),
+			SlowCall:     rapid.SampledFrom([]int{1, 1, 1, 2, 3}).Draw(rt, "slow"),
+			HoldMs:       rapid.SampledFrom([]int{1, 3, 8}).Draw(rt, "hold"),
+			GapUs:        rapid.SampledFrom([]int{0, 50, 500}).Draw(rt, "gap"),
+			Refresh:      rapid.Bool().Draw(rt, "refresh"),
+			RefreshFirst: rapid.Bool().Draw(rt, "refreshfirst"),
 		}
 	},
 	Run: runC16LookupCache,
@@ -895,7 +919,7 @@ func runC16Neighbours(t *testing.T, c NeighbourCase) (*h.Violation, h.Info) {
 
 var c16neighbours = &h.Campaign[NeighbourCase]{
 	Prop: "C16", Sub: "neighbours",
-	Rule: "rapid (real time, gates): (1) two stores in one process, each over its own service; store A's lookup of a name is held at A's service while store B looks the same name up: B is served by its own service at once, knows the secret afterwards, and A gets A's value; (2) a Refresh is held at the service while an undeclared secret is looked up - its name drawn from {x, poll, lookup:x, refresh} - and (3) the other way round: each gets its own answer, a Refresh that returns nil has polled; non-trivial = every completed case; distinct by scenario",
+	Rule:  "rapid (real time, gates): (1) two stores in one process, each over its own service; store A's lookup of a name is held at A's service while store B looks the same name up: B is served by its own service at once, knows the secret afterwards, and A gets A's value; (2) a Refresh is held at the service while an undeclared secret is looked up - its name drawn from {x, poll, lookup:x, refresh} - and (3) the other way round: each gets its own answer, a Refresh that returns nil has polled; non-trivial = every completed case; distinct by scenario",
 	Quick: 60, Thorough: 3000, ShrinkTime: "1ms",
 	Gen: func(rt *rapid.T) NeighbourCase {
 		return NeighbourCase{Kind: rapid.SampledFrom([]string{"two-stores", "lookup-during-refresh", "refresh-during-lookup"}).Draw(rt, "kind"),
@@ -908,7 +932,7 @@ var c16neighbours = &h.Campaign[NeighbourCase]{
 // error every secret the store knows yields the service's active version"), so C11 runs it as well.
 var c11neighbours = &h.Campaign[NeighbourCase]{
 	Prop: "C11", Sub: "refresh-while-a-lookup-is-pending",
-	Rule: "rapid (real time, gates): the first lookup of an undeclared secret - its name drawn from {x, poll, lookup:x, refresh, d} - is held at the service while the declared secret gets a new active version and Refresh is called: a Refresh that returns nil has polled (the declared secret yields the new version), and it does not wait for the lookup; non-trivial = every completed case; distinct by scenario",
+	Rule:  "rapid (real time, gates): the first lookup of an undeclared secret - its name drawn from {x, poll, lookup:x, refresh, d} - is held at the service while the declared secret gets a new active version and Refresh is called: a Refresh that returns nil has polled (the declared secret yields the new version), and it does not wait for the lookup; non-trivial = every completed case; distinct by scenario",
 	Quick: 40, Thorough: 2000, ShrinkTime: "1ms",
 	Gen: func(rt *rapid.T) NeighbourCase {
 		return NeighbourCase{Kind: "refresh-during-lookup",
@@ -925,6 +949,30 @@ var c11neighbours = &h.Campaign[NeighbourCase]{
 
 func TestC11RefreshWhileLookupPending(t *testing.T) { c11neighbours.Check(t) }
 
-func init() { c16neighbours.Register(); c11neighbours.Register() }
+// "... and the cache holds the same": a Refresh that installs a new version while lookups of other
+// names are writing the cache (one write held by a slow device) - the same scenarios as C16's
+// lookup-cache sub-campaign with the Refresh always present; judged here for what the poll promises.
+var c11lookupCache = &h.Campaign[LookupCacheCase]{
+	Prop: "C11", Sub: "refresh-while-lookups-write-a-slow-cache",
+	Rule:  "rapid, real time: 2-6 concurrent LookupSecret calls over 1-4 unknown names on a store whose cache device holds one generated Write call for 1-8 ms; meanwhile the declared secret gets a new active version and Refresh is called; when everything has settled the document written last holds the polled version (if Refresh returned nil) and every looked-up secret: neither kind of cache write may overtake the other; non-trivial = at least two different names; distinct by (scenario, run)",
+	Quick: 300, Thorough: 15000,
+	Gen: func(rt *rapid.T) LookupCacheCase {
+		c := c16lookupCache.Gen(rt)
+		c.Refresh = true
+		return c
+	},
+	Run: func(t *testing.T, c LookupCacheCase) (*h.Violation, h.Info) {
+		v, info := runC16LookupCache(t, c)
+		if v != nil && v.Clause == "cached-after-lookup" {
+			v.Clause, v.Sig = "cache-holds-the-same-after-a-successful-poll", "cache-holds-the-same-after-a-successful-poll"
+		}
+		return v, info
+	},
+	Key: func(c LookupCacheCase) any { return fmt.Sprintf("%v/%d", c, nonce.Add(1)) },
+}
+
+func TestC11RefreshWhileLookupsWriteCache(t *testing.T) { c11lookupCache.Check(t) }
+
+func init() { c16neighbours.Register(); c11neighbours.Register(); c11lookupCache.Register() }
 
 func TestC16Neighbours(t *testing.T) { c16neighbours.Check(t) }
